@@ -1567,10 +1567,20 @@ impl Zeroconf {
 
             // check IP changes if next_ip_check is reached.
             if now >= next_ip_check && next_ip_check > 0 {
+                if self.ip_check_interval > 0 {
+                    next_ip_check = now + self.ip_check_interval;
+                    self.add_timer(next_ip_check);
+
+                    self.check_ip_changes();
+                } else {
+                    // An interval of 0 disables the check. Do not re-arm the
+                    // timer at `now`, which would make the loop spin.
+                    next_ip_check = 0;
+                }
+            } else if next_ip_check == 0 && self.ip_check_interval > 0 {
+                // The check was disabled and is enabled again.
                 next_ip_check = now + self.ip_check_interval;
                 self.add_timer(next_ip_check);
-
-                self.check_ip_changes();
             }
         }
     }
